@@ -4,6 +4,14 @@ use marwood::cell::Cell;
 use marwood::vm::Vm;
 use std::panic::{catch_unwind, AssertUnwindSafe};
 
+struct Quiet;
+impl log::Log for Quiet {
+    fn enabled(&self, _: &log::Metadata) -> bool { true }
+    fn log(&self, record: &log::Record) { let _ = format!("{}", record.args()); }
+    fn flush(&self) {}
+}
+static QUIET: Quiet = Quiet;
+
 fn eval_all(vm: &mut Vm, text: &str) -> Vec<String> {
     let mut out = vec![];
     let mut rest = Some(text);
@@ -40,6 +48,11 @@ fn gc_pressure(vm: &mut Vm) {
 }
 
 fn main() {
+    if std::env::var("MWDEMO_TRACE").is_ok() {
+        // a logger at Trace level that formats every record and throws it away: what RUST_LOG=trace does in the REPL
+        let _ = log::set_logger(&QUIET);
+        log::set_max_level(log::LevelFilter::Trace);
+    }
     if std::env::var("MWDEMO_LOUD").is_err() {
         std::panic::set_hook(Box::new(|_| {}));
     }
